@@ -58,6 +58,7 @@ def gen_worker(qual):
             claim = z3.simplify(ob.claim)
             d = {'id': ob.id, 'func': ob.func, 'kind': ob.kind, 'label': ob.label, 'carries': ob.carries,
                  'claim': ob.info.get('claim', ob.label), 'line': ob.lineno, 'fp': ob.fp}
+            d['definite'] = bool(z3.is_false(claim))      # `this statement always fails when reached`
             if z3.is_true(claim):
                 d['trivial'] = True
             else:
@@ -563,6 +564,14 @@ def handle_sat(prop, g, ob, ck, locked, known, violations, known_hits, undecided
             json.dumps(confirmed['observed'])[:120]), 'replay': rp, 'input': confirmed['args_json']})
         return
     # not confirmed on the real code
+    if ob.get('definite') and any(x.startswith(qual + '#') for x in locked):
+        # a statement that cannot succeed (wrong number of format arguments, unpacking arity, a call
+        # that does not fit the callee, ...) on a path the solver finds reachable, in a function
+        # whose obligations were all discharged on the pinned tree
+        rp = write_replay(prop, ob['id'], payload)
+        violations.append({'what': '%s: %s - reachable according to %s (no such statement on the pinned tree)'
+                           % (ob['id'], ob['claim'], ob['result'].get('backend')), 'replay': rp, 'input': None})
+        return
     if native is None and ck in locked:
         # no executable form, and this clause was discharged on the pinned tree
         rp = write_replay(prop, ob['id'], payload)
